@@ -778,6 +778,21 @@ package app
 //@   loop 2 invariant idx >= -1 && noLocks() && runnerWF(p)
 //@   loop 2 invariant forall i int {runOrder[i]} :: 0 <= i && i < len(runOrder) ==> startable(runOrder[i])
 
+// ---------- C20: entry points that take locks start with none held ----------
+//@ func (p *ProjectRunner) SetProcessPassword
+//@   requires noLocks()
+//@   loop 1 invariant held(p.runProcMutex) && (forall m ref :: m != addr(p.runProcMutex) ==> !held(m))
+//@   loop 2 invariant held(p.runProcMutex) && (forall m ref :: m != addr(p.runProcMutex) ==> !held(m))
+//@ func (p *ProjectRunner) getProcessStateData
+//@   requires noLocks() && runnerWF(p)
+//@   param filter as noeffectfunc
+//@ func (p *ProjectRunner) initProcessStates
+//@   requires noLocks()
+//@   loop 1 invariant held(p.statesMutex) && p.processStates != nil
+//@ func (p *ProjectRunner) GetProcessLog
+//@   requires noLocks() && p.processLogs != nil && (forall k string :: k in p.processLogs ==> p.processLogs[k] != nil)
+//@   ensures noLocks()
+
 // ---------- C10: probe outcomes ----------
 //@ func (p *Process) onReadinessCheckEnd
 //@   requires procWF(p) && unlocked(p) && bufWF(p.logBuffer)
